@@ -1219,9 +1219,10 @@ impl Ref {
                 Ok(Flow::Jump(p)) => pos = p,
                 Ok(Flow::Stop(e)) => return e,
                 Err(e) => {
-                    if matches!(stmt, Stmt::OnGosub(..)) && matches!(pos.place, Place::Prog(_)) {
-                        // what a failed ON..GOSUB leaves on the stack for the rest of the session
-                        // (its return address may or may not be there) is not settled
+                    if matches!(pos.place, Place::Prog(_)) {
+                        // what a failed statement leaves on the stack for the rest of the session
+                        // (ON..GOSUB's return address, operands of a half evaluated expression on top
+                        // of the FOR / GOSUB frames) is not settled
                         self.residue_grey = true;
                     }
                     return self.fail(e, pos.place);
@@ -1916,8 +1917,22 @@ impl Ref {
         if self.residue_grey {
             if matches!(stmts.first(), Some(Stmt::Run(_)) | Some(Stmt::Clear)) {
                 self.residue_grey = false;
-            } else if stmts.iter().any(|s| !matches!(s, Stmt::Tron | Stmt::Troff | Stmt::Print { .. })) {
-                self.grey("session continued (without RUN / CLEAR) after a failed ON..GOSUB");
+            } else {
+                // only lines that use the stack's frames or enter the program again are affected
+                let mut control = false;
+                crate::gen::walk_stmts(stmts, &mut |s| {
+                    if matches!(
+                        s,
+                        Stmt::Goto(_) | Stmt::Gosub(_) | Stmt::Return | Stmt::Next(_) | Stmt::Cont | Stmt::OnGoto(..) | Stmt::OnGosub(..) | Stmt::For { .. } | Stmt::While(_) | Stmt::Wend | Stmt::Run(_)
+                    ) || matches!(s, Stmt::If { then: Branch::Line(_), .. })
+                        || matches!(s, Stmt::If { els: Some(Branch::Line(_)), .. })
+                    {
+                        control = true;
+                    }
+                });
+                if control {
+                    self.grey("session continued (without RUN / CLEAR) after a statement of the program failed");
+                }
             }
         }
         self.direct.clear();
